@@ -38,7 +38,7 @@ def corrupt(ev):
 
 
 def run_cases(prop, tier, seed, cases, devices, matcher=None, keyf=None, rule="", assumptions=(), extra_cov=None,
-              exhaustive=False, module="Trace_Asm", chunk=None, mc=None):
+              exhaustive=False, module="Trace_Asm", chunk=None, mc=None, dedupe=False):
     """Executes cases, has TLC judge them, files rejections as violations / known findings."""
     scratch = Scratch(prop)
     v = Verdict(prop, tier, seed, "model_checking")
@@ -49,6 +49,20 @@ def run_cases(prop, tier, seed, cases, devices, matcher=None, keyf=None, rule=""
         events = []
         for i, c in enumerate(cases):
             events.append(event(c.prog, res[i], devs_for(c.prog, devices), c.mat, c.chkline, c.msg_texts))
+        all_events, all_cases, all_res = events, cases, res
+        if dedupe:
+            # variants of one abstract program that gave the same result are the same event for TLC (line numbers aside,
+            # which only messages carry): judge each distinct (program, result) once
+            seen, keep = {}, []
+            for i, e in enumerate(events):
+                key = json.dumps([[{k: v for k, v in l.items() if k != "ln" or l["k"] in ("message", "warning", "error")} for l in e["prog"]],
+                                  e["res"], e["mat"]], sort_keys=True)
+                if key not in seen:
+                    seen[key] = i
+                    keep.append(i)
+            events = [all_events[i] for i in keep]
+            cases = [all_cases[i] for i in keep]
+            res = {j: all_res[i] for j, i in enumerate(keep)}
         oks = [i for i, e in enumerate(events) if e["res"]["r"] == "ok"]
         errs = [i for i, e in enumerate(events) if e["res"]["r"] == "err"]
         can = [corrupt(events[i]) for i in (oks[:1] + oks[len(oks) // 2:len(oks) // 2 + 1] + errs[:1])]
@@ -65,17 +79,18 @@ def run_cases(prop, tier, seed, cases, devices, matcher=None, keyf=None, rule=""
             v.reject({"tag": c.tag, "source": c.src, "prog": clean(c.prog), "observed": obs, "expected": rejected[i]}, matcher)
         if keyf:
             v.summary(keyf)
-        srcs = {c.src for c in cases}
+        srcs = {c.src for c in all_cases}
         v.coverage.update({
             "states": stats["states"], "transitions": stats["transitions"],
-            "traces_validated_against_impl": len(events),
-            "evaluations": len(events), "distinct_nontrivial": len({s for s in srcs if s.strip()}),
+            "traces_validated_against_impl": len(all_events),
+            "evaluations": len(all_events), "distinct_nontrivial": len({s for s in srcs if s.strip()}),
+            "distinct_program_result_pairs_judged": len(events),
             "rule": rule or "one build_str per abstract program; distinct = distinct rendered sources; non-trivial = non-empty source",
             "observed_ok": len(oks), "observed_err": len(errs),
             "observed_other": len(events) - len(oks) - len(errs),
             "rejected_events": len([i for i in rejected if i < len(events)]),
             "binding_selftest": "%d/%d corrupted events rejected" % (ncan, len(can)),
-            "tags": _count(c.tag for c in cases),
+            "tags": _count(c.tag for c in all_cases),
             "tlc": stats, "exhaustive": exhaustive,
             "samples": [{"tag": cases[i].tag, "source": cases[i].src, "observed": events[i]["res"]["r"]} for i in
                         sorted(random.Random(seed).sample(range(len(cases)), min(5, len(cases))))],
@@ -1004,3 +1019,104 @@ def check_c09(prop, tier, seed, devices):
 
 
 CHECKS["C09"] = check_c09
+
+
+# ========================================================================================
+# C14 -- surface syntax
+
+def line_kind_programs():
+    """One minimal-context program per line kind; the interesting line is marked by index."""
+    k1 = equ("k1", 0x41)
+    P = []
+    P.append(("instr.none", [instr("nop"), instr("ret")]))
+    P.append(("instr.r", [instr("inc", R(17))]))
+    P.append(("instr.rr", [instr("add", R(3), R(29))]))
+    P.append(("instr.rk", [k1, instr("ldi", R(16), E(fn("low", binop("+", sym("k1"), lit(0x112)))))]))
+    P.append(("instr.rk2", [k1, instr("subi", R(20), E(binop("&", binop("<<", sym("k1"), lit(1)), lit(0xf0))))]))
+    P.append(("instr.neg", [instr("ldi", R(16), E(un("-", lit(3))))]))
+    P.append(("instr.ldd", [instr("ldd", R(4), IX("Y", "disp", lit(17)))]))
+    P.append(("instr.std", [instr("std", IX("Z", "disp", binop("+", lit(3), lit(4))), R(5))]))
+    P.append(("instr.ld", [instr("ld", R(6), IX("X", "inc")), instr("st", IX("Y", "dec"), R(7)), instr("ld", R(8), IX("Z", "none"))]))
+    P.append(("instr.lpm", [instr("lpm", R(9), IX("Z", "inc")), instr("lpm")]))
+    P.append(("instr.lds", [instr("lds", R(10), E(0x123)), instr("sts", E(0x60), R(11))]))
+    P.append(("instr.io", [instr("in", R(12), E(0x3f)), instr("out", E(0x15), R(13)), instr("sbi", E(0x18), E(7))]))
+    P.append(("instr.br", [instr("nop", lab="top"), instr("brne", E(sym("top"))), instr("rjmp", E(sym("fwd"))), instr("nop"), label("fwd"), instr("rcall", E(sym("top")))]))
+    P.append(("instr.jmp", [instr("jmp", E(0x12345)), instr("call", E(sym("there"))), instr("ret", lab="there")]))
+    P.append(("instr.pc", [instr("rjmp", E(binop("+", sym("pc"), lit(2)))), instr("nop"), instr("nop")]))
+    P.append(("instr.alias", [defr("tmp", 18), instr("mov", E(sym("tmp")), R(1)), undef("tmp")]))
+    P.append(("label.only", [label("alone"), instr("nop"), data(2, E(sym("alone")))]))
+    P.append(("label.instr", [instr("nop"), instr("sei", lab="both"), data(2, E(sym("both")))]))
+    P.append(("dir.db", [k1, data(1, E(1), S("hi there"), E(sym("k1")), E(0xfe))]))
+    P.append(("dir.dbodd", [data(1, S("odd")), data(1, E(9))]))
+    P.append(("dir.dw", [k1, data(2, E(0x1234), E(binop("*", sym("k1"), lit(3))))]))
+    P.append(("dir.dd", [data(4, E(0x12345678), E(un("-", lit(2))))]))
+    P.append(("dir.dq", [data(8, E(0x1122334455667788))]))
+    P.append(("dir.byte", [seg("data"), byte(3, lab="v1"), byte(lit(0x10), lab="v2"), seg("code"), instr("lds", R(16), E(sym("v2")))]))
+    P.append(("dir.eseg", [seg("eeprom"), data(1, E(1), E(2), lab="e1"), byte(2), data(2, E(0xbeef)), seg("code"), instr("ldi", R(16), E(sym("e1")))]))
+    P.append(("dir.org", [instr("nop"), org(0x10), instr("nop", lab="at"), data(2, E(sym("at")))]))
+    P.append(("dir.equ", [equ("aa", 0x20), equ("bb", binop("+", sym("aa"), lit(0x11))), instr("ldi", R(16), E(sym("bb")))]))
+    P.append(("dir.set", [setv("cc", 5), setv("cc", binop("+", sym("cc"), lit(0x0a))), instr("ldi", R(16), E(sym("cc")))]))
+    P.append(("dir.if", [k1, line("if", e=binop("==", sym("k1"), lit(0x41))), instr("ldi", R(16), E(1)), line("elif", e=lit(1)), instr("ldi", R(16), E(2)),
+                          line("else"), instr("ldi", R(16), E(3)), line("endif")]))
+    P.append(("dir.if0", [line("if", e=binop(">", lit(2), lit(0x10))), line("garbage", text="not ( assembly"), line("else"), instr("ldi", R(16), E(3)), line("endif")]))
+    P.append(("dir.ifdef", [line("define", n="FLAG"), line("ifdef", n="FLAG"), instr("nop"), line("endif"), line("ifndef", n="FLAG"), instr("ret"), line("endif")]))
+    P.append(("dir.macro", [line("macro", n="mm"), instr("ldi", ARG(0), E(binop("+", arg(1), lit(1)))), line("endm"), call("mm", R(16), E(0x10)), call("mm", R(17), E(binop("*", lit(2), lit(3))))]))
+    P.append(("dir.message", [line("message", txt="hello msg"), instr("nop"), line("warning", txt="warn msg")]))
+    P.append(("dir.device", [line("device", n="ATmega48"), seg("data"), byte(2, lab="v"), seg("code"), instr("lds", R(16), E(sym("v")))]))
+    P.append(("dir.device20", [line("device", n="ATtiny20"), instr("lds", R(16), E(0x45)), instr("rjmp", E(0))]))
+    return P
+
+
+def all_spells():
+    out = []
+    for case in ("lower", "upper", "mixed"):
+        for ws in range(4):
+            for comment in ("", ";", "//", "/*"):
+                for eol in ("\n", "\r\n"):
+                    for radix in ("dec", "0x", "$", "0b", "oct"):
+                        for blank in range(3):
+                            out.append(dict(case=case, ws=ws, comment=comment, eol=eol, radix=radix, blank_before=blank))
+    return out
+
+
+def check_c14(prop, tier, seed, devices):
+    rnd = random.Random(seed)
+    cases = []
+    spells = all_spells()
+    for tag, prog in line_kind_programs():
+        texts = [l["txt"] for l in prog if l["k"] in ("message", "warning")]
+        for sp in spells:
+            p = copy.deepcopy(prog)
+            cases.append(Case(p, tag=tag, spell=Spell(**sp), msg_texts=texts))
+    # multi-line programs from the other generators with an independent seeded descriptor per line
+    pool = []
+    pool += [c.prog for c in gen_layout_random(rnd, 300 if tier == "quick" else 3000, C02_DEVS)]
+    for _ in range(300 if tier == "quick" else 3000):
+        pool.append(sym_program(rnd, rnd.randrange(4, 11)))
+    structs = [s for n in range(3, 7) for s in cond_structures(n, 3) if any(isinstance(x, tuple) for x in s)]
+    for _ in range(300 if tier == "quick" else 3000):
+        st = rnd.choice(structs)
+        prog = cond_program(st, lambda i, o, r=rnd: r.choice(o))
+        pool.append(prog)
+    nvar = 4 if tier == "quick" else 12
+    for prog in pool:
+        if has_unevaluable_size(prog):
+            continue
+        texts = [l["txt"] for l in prog if l["k"] in ("message", "warning")]
+        for _ in range(nvar):
+            p = copy.deepcopy(prog)
+            sps = [Spell(**rnd.choice(spells)) for _ in p]
+            eol = rnd.choice(["\n", "\r\n"])
+            for s_ in sps:
+                s_.eol = eol if rnd.random() < 0.9 else rnd.choice(["\n", "\r\n"])
+            cases.append(Case(p, tag="multi", spells=sps, msg_texts=texts))
+    return run_cases(prop, tier, seed, cases, devices, keyf=default_key, dedupe=True,
+                     rule="full factorial of 1440 spelling descriptors (letter case x whitespace pattern x comment style x line end x radix x "
+                          "blank/comment-only lines before) on %d minimal-context programs, one per line kind; plus multi-line programs from the "
+                          "layout, symbol and conditional generators with an independent seeded descriptor per line (%d variants each); every "
+                          "variant must give the specification's result for the abstract program, hence all variants agree" % (len(line_kind_programs()), nvar),
+                     assumptions=["letter case of directive names, device names, .define flags and radix prefixes, spaces inside index operands "
+                                  "and after unary operators, lone CR are not varied (the statement does not list them)"])
+
+
+CHECKS["C14"] = check_c14
